@@ -12,6 +12,7 @@ claimed = {
  "C06": ("exploration", DST + "lockstep reference model + exactly-once/order/capacity history monitors", "channel programs with endpoint drops as faults; model-independent monitors over unique payloads plus lockstep model for blocking and try results", "single receiver per channel"),
  "C07": ("exploration", DST + "lockstep reference model + lifecycle/TLS log monitors", "spawn/join/scope/thread-local programs; join-after-destructors, destructor order, exactly-once, no resurrection, ids unique", "scope waits for closures not TLS destructors (as std)"),
  "C08": ("exploration", DST + "scheduler-contract monitor on every call + stop faults + wrapper transparency", "argument-shape monitor at every decision of every run, yield flag exactness, offered set = model enabled set, scheduler None / run end faults, recorders inside and outside the transparent wrappers", "portfolio stop wrapper checked from inside only"),
+ "C12": ("exploration", "deterministic simulation with fault injection: seeded histories of differently configured Shuttle runs executed in one child process (process-global hook / thread-local marker as the shared state), stderr sections and persistence directories observed from outside, emitted schedules replayed in fresh child processes", "histories of 1-4 runs x (failure kind x persistence mode x scheduler x thread placement); payload identity, exactly the configured artefact (fresh file names, pre-populated directories), nothing when disabled, replay of every emitted schedule reproduces payload and event trace, corrupted artefact rejected; portfolio verdict vs members alone", "PortfolioRunner uses real OS threads: verdict only; known finding F20 (two schedules when a guard is dropped during unwinding)"),
  "C13": ("exploration", DST + "step-profile oracle against the unbounded execution", "each program is run unbounded, then with FailAfter/ContinueAfter(n) around its length and 1-3 executions: steps since reset never exceed n, fewer-than-n executions identical, more-than-n executions fail/abandon as configured, run count exact; iteration budgets 0..20 on every built-in scheduler", "max_time only at 0 and large (real clock not owned); known finding F8 (draws unchecked) keyed separately"),
  "C14": ("exploration", DST + "per-iteration equality with stand-alone re-execution + init/destroy accounting", "multi-iteration runs whose predecessors complete, are stopped by the scheduler at a drawn decision, or are cut by ContinueAfter; every iteration must equal the fresh stand-alone execution of its own schedule (snapshot of clock/schedule length/name/labels, decisions, draws, events) and destroy everything it initialised (TLS, lazy statics, stack values)", "stand-alone runs in the same process with a fresh Runner and the harness's own FollowSched; F17 pinned in a child process"),
  "C15": ("exploration", DST + "happens-before derivation from the event log vs sampled vector clocks", "clock() sampled after every operation; edges derived by API rules: every edge must be reflected by clock dominance, per-task monotonicity, exactness (no spurious order, also via VectorClock::partial_cmp) on the restricted family whose edge set is complete, and target-clock replay must keep the causal past", "exactness only on the restricted family (no try-ops/condvar/barrier/once/bounded channels); rendezvous send compared as of publication; F19 keyed separately"),
